@@ -235,6 +235,23 @@ func suiteText(tier string, seed uint64, model string) *Report {
 			} else if c < 28 {
 				x = x.D()
 				sp = append(sp, "d")
+			} else if c < 38 {
+				// a union of 2-4 members (one-member unions read back as a child / index: directed below)
+				var ms []any
+				u := "u"
+				for m := 2 + r.Intn(3); m > 0; m-- {
+					if r.Bool() {
+						k := keyPieces[r.Intn(len(keyPieces))]
+						ms = append(ms, k)
+						u += ",s" + hx([]byte(k))
+					} else {
+						i := idxs[r.Intn(len(idxs))]
+						ms = append(ms, int64(i))
+						u += fmt.Sprintf(",i%d", i)
+					}
+				}
+				x = append(x, jp.NewUnion(ms...))
+				sp = append(sp, u)
 			} else if c < 72 {
 				k := keyPieces[r.Intn(len(keyPieces))]
 				if r.Chance(30) {
@@ -264,6 +281,8 @@ func suiteText(tier string, seed uint64, model string) *Report {
 	}
 	nps = append(nps, npath{jp.R().D(), "d"}, npath{jp.R().D().D(), "d d"}, npath{jp.R().D().W(), "d w*"}, npath{append(jp.R().D(), jp.Wildcard('#')), "d w#"},
 		npath{jp.R().D().N(2), "d i2"}, npath{jp.R().W().D().N(-1).D(), "w* d i-1 d"}, npath{jp.R().W().W(), "w* w*"})
+	nps = append(nps, npath{append(jp.R(), jp.NewUnion("a")), "u,s61"}, npath{append(jp.R(), jp.NewUnion(3)).C("b"), "u,i3 c62"},
+		npath{append(jp.R().D(), jp.NewUnion("a b", -1, "", "'")), "d u,s612062,i-1,s,s27"}, npath{append(jp.R(), jp.NewUnion(0, 0)), "u,i0,i0"})
 	for _, i := range idxs {
 		nps = append(nps, npath{jp.R().N(i), fmt.Sprintf("i%d", i)}, npath{jp.R().C("a").N(i).C("b"), fmt.Sprintf("c61 i%d c62", i)})
 	}
@@ -296,7 +315,7 @@ func suiteText(tier string, seed uint64, model string) *Report {
 		ptexts[strings.ReplaceAll(strings.ReplaceAll(t, "[", "[ "), "]", " ]")] = true
 		ptexts[strings.ReplaceAll(t, "['", "[\"")] = true
 	}
-	for _, t := range []string{"$", "$.a", "$[007]", "$[-0]", "$[ 1 ]", "$['a' ]", "$[\"a\"]", "$.a.b[1]", "$.a..b", "$.*", "$[*]", "$*", "$..*", "$..", "$...a", "$....a", "$..[*]", "$[ * ]", "$.a*", "$..['a']", "$..a.b..c", "$.a[", "$[1", "$['a'", "$.", "$[]", "$[-]", "$[1 2]", "$.a b", "$x", "a.b", "@.a", "$[1,2]", "$[1:2]", "$['a','b']", "$[+1]", "$.a['b'].c"} {
+	for _, t := range []string{"$", "$.a", "$[007]", "$[-0]", "$[ 1 ]", "$['a' ]", "$[\"a\"]", "$.a.b[1]", "$.a..b", "$.*", "$[*]", "$*", "$..*", "$..", "$...a", "$....a", "$..[*]", "$[ * ]", "$.a*", "$..['a']", "$..a.b..c", "$.a[", "$[1", "$['a'", "$.", "$[]", "$[-]", "$[1 2]", "$.a b", "$x", "a.b", "@.a", "$[1,2]", "$[1:2]", "$['a','b']", "$[ 1 , 'a' ,2 ]", "$[1,]", "$[,1]", "$['a',]", "$[1 ,2].x", "$[\"a\",\"b\"]", "$[1,'a'", "$[+1]", "$.a['b'].c"} {
 		ptexts[t] = true
 	}
 	var ptl []string
@@ -342,6 +361,19 @@ func suiteText(tier string, seed uint64, model string) *Report {
 					sp = append(sp, "w"+string([]byte{byte(tf)}))
 				case jp.Descent:
 					sp = append(sp, "d")
+				case jp.Union:
+					u := "u"
+					for _, m := range tf {
+						switch tm := m.(type) {
+						case string:
+							u += ",s" + hx([]byte(tm))
+						case int64:
+							u += fmt.Sprintf(",i%d", tm)
+						default:
+							u += fmt.Sprintf(",?%T", m)
+						}
+					}
+					sp = append(sp, u)
 				default:
 					sp = append(sp, fmt.Sprintf("?%T", f))
 				}
